@@ -342,8 +342,8 @@ fn lengths(kt: &str) -> [usize; 3] {
 fn generate(out: &mut Out, deep: bool, seed: u64) {
     use rand::Rng;
     let mut rng = vcommon::rng(seed);
-    let kts: &[&str] = if deep { &["ed25519", "secp256k1", "ecdsa"] } else { &["ed25519"] };
-    for kt in ["ed25519", "secp256k1", "ecdsa"] {
+    let kts: &[&str] = if deep { &["ed25519", "secp256k1", "ecdsa", "rsa"] } else { &["ed25519"] };
+    for kt in ["ed25519", "secp256k1", "ecdsa", "rsa"] {
         run(out, &json!({"key": kt, "attack": "none"}));
         run(out, &json!({"key": kt, "attack": "mitm"}));
         run(out, &json!({"key": kt, "attack": "prologue"}));
@@ -353,9 +353,12 @@ fn generate(out: &mut Out, deep: bool, seed: u64) {
             }
         }
     }
-    for kt in ["ed25519", "secp256k1", "ecdsa"] {
+    for kt in ["ed25519", "secp256k1", "ecdsa", "rsa"] {
         for role in ["resp", "init"] {
             for x in ["peer", "third"] {
+                if kt == "rsa" && x == "third" {
+                    continue; // only three RSA test keys
+                }
                 for variant in ["xid_xsig", "xid_msig", "xid_nosig", "mid_xsig", "mid_nosig", "honest"] {
                     run(out, &json!({"key": kt, "attack": "splice", "role": role, "x": x, "variant": variant}));
                 }
